@@ -183,7 +183,9 @@ fn doc_json14(s: &Spec14, pad: usize) -> String {
       .collect::<Vec<_>>()
       .join(",")
   );
-  j += &format!(",\"note\":{{\"self\":\"{}#k1\",\"pad\":\"{}\"}}}}", me, "x".repeat(pad));
+  // every second document carries non-ASCII text in a custom property (the length prefix counts BYTES of the JSON)
+  let text = if s.id % 2 == 1 { "\u{e9}\u{20ac}\u{1f600} na\u{ef}ve" } else { "" };
+  j += &format!(",\"note\":{{\"self\":\"{}#k1\",\"pad\":\"{}{}\"}}}}", me, text, "x".repeat(pad));
   j += match s.md {
     1 => ",\"meta\":{\"created\":\"2023-01-01T00:00:00Z\",\"updated\":\"2023-02-02T00:00:00Z\",\"deactivated\":true,\"extra\":[1,2]",
     2 => ",\"meta\":{\"created\":\"2023-01-01T00:00:00Z\",\"updated\":\"2023-02-02T00:00:00Z\",\"deactivated\":false,\"extra\":[1,2]",
